@@ -125,14 +125,15 @@ PROPS["C02"] = dict(
                "Symlink/'..' resolution against a symbolic forest is NOT yet part of this check (see outside).",
     explanation="Handle/check*/absPath*/isOpenReadOnly/readOpenHowFlags executed symbolically; oracles: ABI table, kernel int-dirfd rule, open(2) flag semantics.",
     bounds={"syscall number": "all values: the whole table plus 'unknown'", "dirfd register": "all 2^64 values x 15 *at syscalls", "open flags": "all 2^64 words for open/openat/openat2",
-            "file system": "no symbolic links (resolution is the identity)"},
-    outside=["symlink chains and '..' after symlinks (resolveTraceePath differential not built yet)", "/proc alias grammar beyond what Handle exercises here", "TOCTOU between check and use"],
+            "file system": "ArgPositions/Dirfd/OpenFlags: no symbolic links; Resolve: symbolic forest of 6 nodes (/a,/a/b,/a/b/c,/d,/d/e,/f), each dir/file/link/absent, 10 link targets, 4 (quick) / 19 (thorough) query strings, cwd- / AT_FDCWD- / descriptor-relative"},
+    outside=["final-component symlinks of non-following syscalls (lstat/unlink/readlink/rename: the handler always follows; not checked)", "forests beyond the 6-node skeleton", "/proc alias grammar beyond what Handle exercises here", "TOCTOU between check and use"],
     assumptions=["tracee single-threaded (tid = tgid)"],
     harnesses=[
         dict(pkg=RP, run="^VerifC02_ArgPositions$", replay="model", reach=["path-syscall", "other-syscall", "unknown-number"], timeout=900),
         dict(pkg=RP, run="^VerifC02_Dirfd$", replay="model", reach=["at_fdcwd", "descriptor"]),
         dict(pkg=RP, run="^VerifC02_OpenFlags$", replay="model", reach=["write-capable", "read-only", "open_how-unreadable"]),
-    ],
+        dict(pkg=RP, run="^VerifC02_Resolve_Q$", tiers=["quick", "thorough"], replay="model", preempt=0, timeout=1500, reach=["kernel-resolves", "kernel-fails", "dotdot-after-symlink"]),
+    ] + [dict(pkg=RP, run="^VerifC02_Resolve_T%d$" % i, tiers=["thorough"], replay="model", preempt=0, timeout=6000, max_paths=5000000) for i in range(4)],
 )
 
 PROPS["C03"] = dict(
